@@ -40,11 +40,14 @@ def run(ctx):
     ctx.rule("C18.D1", "add_failure: keyed by (address, reporter); a present reporter returns before any insert")
     ctx.rule("C18.D2", "get_failures: per-report purge with (now - t) < ttl on every reporter map, empty maps dropped, len >= quorum, registered proxies only; purges dominate the count")
     ctx.rule("C18.D3", "add_proxy / remove_proxy clear failed_proxies and failures on every path")
+    ctx.rule("C18.D5", "a failed mark is set only for a registered proxy (insert into failed_proxies is control-dependent on the proxy being found); storage back-ends never answer a registration by themselves: every result comes from the store's add_proxy / remove_proxy / add_failure or from a propagated infrastructure error")
     ctx.rule("C18.D4", "configured failure_ttl (seconds) and failure_quorum reach get_failures unchanged")
     _add_failure(ctx)
     _get_failures(ctx)
     _clears(ctx)
     _config(ctx)
+    _failed_mark_registered(ctx)
+    _wrappers_delegate(ctx)
 
 
 def _add_failure(ctx):
@@ -255,3 +258,86 @@ def _config(ctx):
             good = ("failure_ttl" in s1.captures or any(True for _ in s1.params)) and ("failure_quorum" in s2.captures or any(True for _ in s2.params)) and not s2.binops and not s2.consts
             ctx.analysed(b)
             ctx.check(good, "C18.D4", "storage-passthrough:%s" % b.path.split("::{")[0], site(b, bb), ok="arguments passed through", bad="storage alters ttl/quorum before calling the store")
+
+
+def _failed_mark_registered(ctx):
+    from ..lib import branch_conditions
+    F = ctx.F
+    n = 0
+    for b in F.all_bodies(bins=False):
+        if b.is_mock() or b.kind == "Promoted" or "tests::" in b.path or not b.path.startswith("broker::"):
+            continue
+        ins = []
+        du = None
+        for bb, t in b.calls():
+            c = callee_of(t) or ""
+            if c.endswith("HashSet::insert") and t["args"]:
+                du = du or DefUse(b)
+                if ("broker::store::MetaStore", "failed_proxies") in {(norm(a), nm) for a, nm in du.slice_operand(t["args"][0], deep=False).fields}:
+                    ins.append((bb, t))
+        if not ins:
+            continue
+        dom = cfg.dominators(b)
+        ctx.analysed(b)
+        for bb, t in ins:
+            n += 1
+            found = False
+            for d, discr, val in branch_conditions(b, bb, dom):
+                pl = discr.get("mv") or discr.get("cp")
+                for df in du.defs.get(pl["l"], []) if pl else []:
+                    if df[0] == "assign" and df[3]["rv"]["k"] == "discr":
+                        ty = b.locals[df[3]["rv"]["p"]["l"]]["ty"]
+                        if ty.startswith("std::option::Option<&broker::store::ProxyResource") and val == 1 and not df[3]["rv"]["p"]["p"]:
+                            found = True
+                sl = du.slice_operand(discr)
+                is_true = (val == 1) or (isinstance(val, tuple) and val[1] == [0])
+                if is_true and sl.has_call("contains_key") and sl.has_field("MetaStore", "all_proxies"):
+                    found = True
+            ctx.check(found, "C18.D5", "failed-mark-only-if-registered:%s" % b.path.rsplit("::", 1)[-1], site(b, bb), ok="the insert is on the `proxy found` branch of all_proxies.get(..)",
+                      bad="%s inserts into failed_proxies on a path where the address was not found in all_proxies: an unregistered (removed / never added) proxy is listed as failed until something registers under that address" % b.path)
+    ctx.floor("C18.D5", "failed_proxies.insert sites", n, 1)
+
+
+WRAPPED = ("add_proxy", "remove_proxy", "add_failure", "replace_failed_proxy")
+
+
+def _wrappers_delegate(ctx):
+    """MemoryStorage / ExternalHttpStorage methods are thin wrappers: a wrapper that answers by itself (an Ok / Err it
+    constructs before calling the store) skips the store's bookkeeping - e.g. add_proxy's clearing of pending reports"""
+    F = ctx.F
+    n = 0
+    for b in F.all_bodies(bins=False):
+        if b.is_mock() or b.kind == "Promoted" or "tests::" in b.path:
+            continue
+        if not (b.path.startswith(("<broker::storage::MemoryStorage as broker::storage::MetaStorage>::", "<broker::external::ExternalHttpStorage as broker::storage::MetaStorage>::")) and b.path.endswith("::{closure#0}")):
+            continue
+        meth = b.path.split("MetaStorage>::", 1)[1].split("::", 1)[0]
+        if meth not in WRAPPED:
+            continue
+        calls = [bb for bb, t in b.calls() if (callee_of(t) or "") == "broker::store::MetaStore::%s" % meth]
+        if not calls:
+            ctx.violation("C18.D5", "wrapper-delegates:%s:%s" % ("memory" if "MemoryStorage" in b.path else "external", meth), site(b), "%s never calls MetaStore::%s" % (b.path, meth))
+            continue
+        n += 1
+        ctx.analysed(b)
+        du = DefUse(b)
+        bad = None
+        rets = b.return_blocks()
+        for bb_, i_, st in b.assigns():
+            if st["place"]["l"] != 0 or st["place"]["p"]:
+                continue
+            rv = st["rv"]
+            if rv["k"] != "agg" or rv.get("variant") not in ("Ok", "Err", "Ready"):
+                continue
+            inner_sl = du.slice_operand(rv["ops"][0]) if rv.get("ops") else None
+            if inner_sl is not None and (inner_sl.has_call("from_residual") or inner_sl.has_call("MetaStore::%s" % meth)):
+                continue
+            if bb_ in calls:
+                continue
+            pre = cfg.path_between(b, 0, bb_, avoid=set(calls)) if bb_ != 0 else [0]
+            post = any((cfg.path_between(b, bb_, r, avoid=set(calls)) is not None) or bb_ == r for r in rets)
+            if pre is not None and post:
+                bad = (bb_, "%s(..) built at line %s" % (rv.get("variant"), st.get("line")))
+        ctx.check(bad is None, "C18.D5", "wrapper-delegates:%s:%s" % ("memory" if "MemoryStorage" in b.path else "external", meth), site(b, bad[0]) if bad else site(b), ok="every result comes from MetaStore::%s or from a propagated error" % meth,
+                  bad="%s can finish with a result it constructs itself (%s) without calling MetaStore::%s: the store's bookkeeping for this request (clearing failed marks and pending reports on re-registration) is skipped" % (b.path, bad[1] if bad else "", meth))
+    ctx.floor("C18.D5", "storage wrappers examined", n, 6)
